@@ -429,7 +429,9 @@ func (p *PsUnpacker) parseAvStream(code int, rtpts uint32, rb []byte, index int)
 						}
 					}
 				} else {
+					// 当前pes包没有pts，而前一个有，认为是同一帧的后续数据。注意，dts也要沿用，否则这一帧回调时的时间戳是0
 					pts = p.preAudioPts
+					dts = p.preAudioDts
 				}
 			} else {
 				if pts != p.preAudioPts && p.preAudioPts >= 0 {
